@@ -794,7 +794,9 @@ func (c *FnCtx) loopCore(st *State, ls *LoopSpec, ord int, node ast.Node, body *
 			hm[k] = v
 		}
 	}
+	preAlloc := st.alloc
 	c.havocMods(st, hm)
+	headAlloc := st.alloc
 	// 3. assume invariants
 	if ri != nil {
 		c.assume(st, ri.extraInv(st))
@@ -843,6 +845,11 @@ func (c *FnCtx) loopCore(st *State, ls *LoopSpec, ord int, node ast.Node, body *
 		}
 	}
 	_ = head
+	if headAlloc != preAlloc && (cont.dead() || cont.alloc == headAlloc) {
+		// no path that returns to the loop head allocates: by induction the allocation frontier
+		// at the head is the one before the loop, on every iteration
+		c.facts = append(c.facts, eq(headAlloc, preAlloc))
+	}
 	st.become(c.join(append([]*State{exitSt}, lf.breaks...)...))
 }
 
